@@ -1,6 +1,9 @@
 (* extraction of the executable thread-pool protocol model (ExtrOcamlBasic only) *)
-From Coq Require Import List ZArith Extraction ExtrOcamlBasic.
-From LN Require Import C17_Defs.
+From Coq Require Import List ZArith NArith Extraction ExtrOcamlBasic.
+From LN Require Import C17_Defs C17_Fast_Defs.
 Extraction Language OCaml.
+(* C17_Defs: the proved unary model (kept: the driver cross-checks the fast acceptor against it on small traces);
+   C17_Fast_Defs: the fast acceptor over binary ids, proved to refine it (C17_Fast.v), used for ALL traces *)
 Extraction "extracted/c17_model.ml" step run init wf_config final enabled chunks chunks_inline map_inline
-  chunked_inline indexed_inline complete.
+  chunked_inline indexed_inline complete
+  stepN runN initN wf_configN finalN enabledN completeN failsN.
